@@ -246,10 +246,13 @@ pub fn get_storage_variables_assigned_in_constructor(
             //Can unwrap since Target::FunctionDefinition inside a contract definition will always be a contract part
             let contract_part = node.contract_part().unwrap();
 
-            if let pt::ContractPart::FunctionDefinition(box_function_definition) = contract_part {
+            if let pt::ContractPart::FunctionDefinition(box_function_definition) =
+                contract_part.clone()
+            {
                 if let pt::FunctionTy::Constructor = box_function_definition.ty {
+                    //Only assignments inside the constructor itself count
                     let target_nodes =
-                        ast::extract_target_from_node(Target::Assign, source_unit.clone().into());
+                        ast::extract_target_from_node(Target::Assign, contract_part.into());
 
                     for node in target_nodes {
                         //Can unwrap since Target::Assign will always be an expression
